@@ -15,26 +15,26 @@ import (
 )
 
 const (
-	daeIfindex     = 77
-	peerIfindex    = 78
-	lanIfindex     = 3
-	wanIfindex     = 2
-	daeNetns       = 9
-	controlPid     = 4242
-	appPid         = 555
-	daeMark        = 0x2000 // a configured so_mark_from_dae
-	cookieApp      = 1001
-	cookieDae      = 1002
-	baseTimeNs     = 1000 * 1000000000
-	sockTCP4       = 1
-	sockUDP        = 2
-	sockTCP6       = 3
-	sockLocalUDP4  = 4
-	sockLocalUDP6  = 5
-	localSvcPort   = 5353
-	groupG1        = 2 // consts.OutboundUserDefinedMin
-	groupG2        = 3
-	learnedDomain  = "www.d.example"
+	daeIfindex    = 77
+	peerIfindex   = 78
+	lanIfindex    = 3
+	wanIfindex    = 2
+	daeNetns      = 9
+	controlPid    = 4242
+	appPid        = 555
+	daeMark       = 0x2000 // a configured so_mark_from_dae
+	cookieApp     = 1001
+	cookieDae     = 1002
+	baseTimeNs    = 1000 * 1000000000
+	sockTCP4      = 1
+	sockUDP       = 2
+	sockTCP6      = 3
+	sockLocalUDP4 = 4
+	sockLocalUDP6 = 5
+	localSvcPort  = 5353
+	groupG1       = 2 // consts.OutboundUserDefinedMin
+	groupG2       = 3
+	learnedDomain = "www.d.example"
 )
 
 var (
